@@ -329,7 +329,7 @@ def gen_plan(run_seed: int, k: int, tier: str) -> dict:
                 # bounded (an LRU of results, of compiled patterns, of positions) gets evicted
                 t = rng.choice(avail)
                 rule, text = rng.choice(gsel[objects[t]["g"]]["calls"])
-                ops.append({"op": "flood", "t": t, "rule": rule, "text": text[:12], "n": rng.choice((40, 150, 300))})
+                ops.append({"op": "flood", "t": t, "rule": rule, "text": text[:12], "n": rng.choices((40, 150, 300, 1200, 2600), (4, 4, 4, 2, 1))[0]})
             else:
                 ops.append(parse_op(rng.choice(avail)))
                 # (never a sibling of an overflow input: cut somewhere in the middle it needs
